@@ -27,6 +27,7 @@ structure St where
   finalSpecs : List (List (Bytes × Bytes)) := []   -- final states of the linearizations found
   profile : String := ""
   concFinal : Option Conc.State := none      -- final state of the section model when its replay agreed
+  lastGcOverlap : Bool := false              -- D18 recogniser of the last schedule
 deriving Repr
 
 def digestOf (khex : String) : Bytes := (mhDecode ((fromHex khex).getD [])).getD []
@@ -253,7 +254,9 @@ def step (st : St) (l : Line) : St × List Msg :=
     -- (4) the section-level model run on the same schedule returns what the real calls returned (named hook points only:
     -- with lock acquisitions as extra scheduling points the position of a section inside its stretch is not determined)
     let (concMsgs, concFinal) : List Msg × Option Conc.State :=
-      if l.args.get "locks" = "1" ∨ st.profile = "c12" then ([], none) else
+      -- a thread that blocked (on a lock held by a parked thread) later runs truly in parallel with the scheduled one: the log
+      -- order no longer determines the order of the sections
+      if l.args.get "locks" = "1" ∨ st.profile = "c12" ∨ evs.any (fun e => (e.splitOn ":blocked:").length > 1) then ([], none) else
       match concInit st.imm st.spec st.programs with
       | none => ([], none)
       | some c0 =>
@@ -269,7 +272,7 @@ def step (st : St) (l : Line) : St × List Msg :=
       (if gcOverlap then [Msg.flag "gc-overlaps-call"] else []) ++
       (if evs.any (·.endsWith "@store.flushtick.waiting") then [Msg.flag "writer-waited"] else []) ++
       (if evs.any (·.endsWith "@store.flushtick.released") then [Msg.flag "writer-released"] else [])
-    ({ st with lastHist := hist, finalSpecs := finals, concFinal := concFinal }, pErr ++ pLin ++ pWait ++ pStuck ++ flags)
+    ({ st with lastHist := hist, finalSpecs := finals, concFinal := concFinal, lastGcOverlap := gcOverlap }, pErr ++ pLin ++ pWait ++ pStuck ++ flags)
   | "sfinal" =>
     let ra := resArgs l.res
     let keys := (l.args.get "k").splitOn ","
@@ -281,7 +284,10 @@ def step (st : St) (l : Line) : St × List Msg :=
     let hist := st.lastHist.filter (·.inv < 1000000)
     let mutOverlap := hist.any fun a => hist.any fun b =>
       !(a.thread == b.thread && a.idx == b.idx) && isMutator a.op && isMutator b.op && keyOfOp a.op == keyOfOp b.op && overlap a b
-    let known := if mutOverlap then " [known:D17 overlapping-mutators-of-one-key]" else ""
+    -- the same recognisers as for the schedule itself: a key dropped because a collector invalidated a held location (D18b)
+    -- shows only in the contents read afterwards
+    let known := if mutOverlap then " [known:D17 overlapping-mutators-of-one-key]"
+                 else if st.lastGcOverlap then " [known:D18 collector-invalidates-held-position]" else ""
     -- C13 accounting after quiescence (implementation's own views): every non-deleted primary record that no index entry names
     -- is on the freelist exactly once; nothing current is on it; nothing is on it twice
     let lst := fun (k : String) => ((ra.get k).splitOn ",").filter (· ≠ "")
